@@ -75,6 +75,10 @@ func (r *specRecord) when(tag string) string {
 
 type wireSpec struct {
 	Records map[string]*specRecord `json:"records"`
+	Aka     struct {
+		MaxValueOctets map[string]int64 `json:"max_value_octets"`
+		HeaderOctets   int64            `json:"header_octets"`
+	} `json:"eap_aka_prime"`
 }
 
 func loadWireSpec() (*wireSpec, error) {
